@@ -790,12 +790,12 @@ def units(tier: str, seed: int) -> list[Unit]:
     ns = 4 if tier == "quick" else 16
     for sh in range(ns):
         us.append(Unit(f"serialise{sh}", unit_serialise, {"shard": sh, "nshards": ns}))
-    n = 300 if tier == "quick" else 12000
+    n = 1000 if tier == "quick" else 12000
     for i in range(4):
         us.append(Unit(f"writer{i}", unit_writer, {"n": n, "offset": i}))
     for i in range(2):
         us.append(Unit(f"payload{i}", unit_payload, {"n": n // 2, "offset": 20 + i}))
-    nr = 60 if tier == "quick" else 3000
+    nr = 200 if tier == "quick" else 3000
     us.append(Unit("e2e-client-a", unit_e2e, {"side": "client", "positions": ["method", "path", "query"], "n_random": nr, "offset": 40}))
     us.append(Unit("e2e-client-b", unit_e2e, {"side": "client", "positions": ["hname", "hvalue"], "n_random": nr, "offset": 41}))
     us.append(Unit("e2e-client-c", unit_e2e, {"side": "client", "positions": ["cname", "cvalue"], "n_random": nr, "offset": 42}))
